@@ -17,6 +17,7 @@ package main
 
 import (
 	"fmt"
+	"go/token"
 	"go/types"
 	"sort"
 	"strings"
@@ -695,5 +696,151 @@ func nilConfigArgRule(c *Ctx, r *Report) {
 	}
 	if n == 0 {
 		r.add("R07q", "ucfg", "nil config refused", "-", Undecided, true, "no exported function wraps a *Config parameter")
+	}
+}
+
+// ancestorRule (R07r): the tree stays a tree. SetChild walks from its receiver up through Parent() and refuses a
+// value that is the receiver itself or one of its ancestors; the store is not reachable from the edge on which the
+// two were found identical. A config that becomes its own descendant makes every walk (Path, FlattenedKeys, Unpack,
+// the path in an error message, the root search of a reference) run forever or overflow the stack.
+func ancestorRule(c *Ctx, r *Report) {
+	r.Rule("R07r", "SetChild compares its receiver and every Parent() above it with the config it is given and does not store on the edge where they are identical", 1)
+	sc := c.Method("", "Config", "SetChild")
+	name := c.FnName(sc)
+	var valParam *ssa.Parameter
+	for _, p := range sc.Params[1:] {
+		if typeStr(p.Type()) == "*ucfg.Config" {
+			valParam = p
+		}
+	}
+	var store ssa.Instruction
+	for _, ci := range CallsIn(sc, false) {
+		if g := ci.Common().StaticCallee(); g != nil && g.Pkg == c.SSA[""] && (g.Name() == "setField" || g.Name() == "SetValue") {
+			store = ci.(ssa.Instruction)
+		}
+	}
+	if store == nil || valParam == nil {
+		r.add("R07r", name, "ancestors refused", c.Pos(sc.Pos()), Undecided, true, "SetChild's store or its *Config parameter not found")
+		return
+	}
+	ok, why := false, "no comparison of the receiver's ancestors with the value"
+	Instrs(sc, false, func(in ssa.Instruction) {
+		bo, isB := in.(*ssa.BinOp)
+		if !isB || bo.Op != token.EQL && bo.Op != token.NEQ {
+			return
+		}
+		var walker ssa.Value
+		switch {
+		case bo.X == ssa.Value(valParam):
+			walker = bo.Y
+		case bo.Y == ssa.Value(valParam):
+			walker = bo.X
+		default:
+			return
+		}
+		// the other side walks up: a φ of the receiver and Parent() of itself
+		phi, isPhi := walker.(*ssa.Phi)
+		if !isPhi {
+			return
+		}
+		fromRecv, fromParent := false, false
+		for _, e := range phi.Edges {
+			if e == ssa.Value(sc.Params[0]) {
+				fromRecv = true
+			}
+			if call, isCall := e.(*ssa.Call); isCall && calledName(call) == "Parent" && len(call.Call.Args) == 1 && call.Call.Args[0] == ssa.Value(phi) {
+				fromParent = true
+			}
+		}
+		if !fromRecv || !fromParent {
+			why = "the compared value does not walk from the receiver up through Parent()"
+			return
+		}
+		// the store is cut off from the edge on which the two are identical
+		for _, ref := range *bo.Referrers() {
+			ifi, isIf := ref.(*ssa.If)
+			if !isIf {
+				continue
+			}
+			b := ifi.Block()
+			same := b.Succs[0]
+			if bo.Op == token.NEQ {
+				same = b.Succs[1]
+			}
+			if reachableFromEdge(b, same, store.Block(), nil) {
+				why = "the store is still reached after the value was found among the ancestors"
+			} else {
+				ok, why = true, "receiver and ancestors compared with the value; no store on the identical edge"
+			}
+		}
+	})
+	r.Check(ok, "R07r", name, "ancestors refused", c.Pos(store.Pos()), why,
+		"SetChild can make a config a child of itself or of one of its own children ("+why+"): Path, FlattenedKeys, Unpack, every error message and the root search of references then recurse without end (fatal stack overflow, or a hang in cfgRoot)")
+}
+
+// zeroConfigRule (R07s): the zero value of Config — a Config that was not made by New: an unset struct field of type
+// Config inside merged data, `var c ucfg.Config` as the target of Unpack — has no `fields` object. It reads as an empty
+// configuration (the read accessors of fields test their receiver) and gets its fields when it is first written to
+// (mergeConfig for a destination, setField for a setter).
+func zeroConfigRule(c *Ctx, r *Report) {
+	r.Rule("R07s", "fields.get / dict / array dereference their receiver only under a nil test; mergeConfig and setField give a destination without fields a fresh fields object", 5)
+	for _, mn := range []string{"get", "dict", "array"} {
+		fn := c.Method("", "fields", mn)
+		recv := fn.Params[0]
+		ok := true
+		derefs := 0
+		Instrs(fn, false, func(in ssa.Instruction) {
+			fa, isFA := in.(*ssa.FieldAddr)
+			if !isFA || fa.X != ssa.Value(recv) {
+				return
+			}
+			derefs++
+			guarded := false
+			for _, cd := range ExpandConds(DomConds(fa.Block())) {
+				if tv, neq, isT := nilTest(cd.V); isT && tv == ssa.Value(recv) && cd.Truth == neq {
+					guarded = true
+				}
+			}
+			if !guarded {
+				ok = false
+			}
+		})
+		r.Check(ok && derefs > 0, "R07s", c.FnName(fn), "nil receiver reads as empty", c.Pos(fn.Pos()), "every dereference of the receiver under f != nil",
+			"fields."+mn+" dereferences a nil receiver: reading a zero-valued Config (an unset Config field in merged data, a Config not made by New) panics")
+	}
+	cfgT := c.Named("", "Config")
+	for _, fname := range []string{"mergeConfig", "setField"} {
+		var fn *ssa.Function
+		if fname == "setField" {
+			fn = c.Method("", "Config", "setField")
+		} else {
+			fn = c.Func("", fname)
+		}
+		ok := false
+		Instrs(fn, false, func(in ssa.Instruction) {
+			st, isSt := in.(*ssa.Store)
+			if !isSt {
+				return
+			}
+			nt, f, isF := FieldOf(st.Addr)
+			if !isF || nt != cfgT || f != "fields" {
+				return
+			}
+			if al, isAl := st.Val.(*ssa.Alloc); !isAl || !al.Heap {
+				return
+			}
+			// under a test that the destination has none
+			for _, cd := range DomConds(st.Block()) {
+				if tv, neq, isT := nilTest(cd.V); isT && cd.Truth != neq {
+					if l, isL := tv.(*ssa.UnOp); isL {
+						if nt2, f2, ok2 := FieldOf(l.X); ok2 && nt2 == cfgT && f2 == "fields" {
+							ok = true
+						}
+					}
+				}
+			}
+		})
+		r.Check(ok, "R07s", c.FnName(fn), "destination gets its fields", c.Pos(fn.Pos()), "fields == nil → fresh fields object",
+			fname+" writes into a Config without making sure it has a fields object: a zero-valued Config as the destination of Merge / Unpack / a setter panics")
 	}
 }
